@@ -16,8 +16,8 @@ import (
 
 // C14 — tile covers contain every tile the geometry touches; merging keeps area.
 //
-// Oracle: vertices are projected with the library's own maptile.Fraction (shared on
-// purpose: the property is about the walk, not the projection); segments in tile
+// Oracle: vertices are projected with the web-mercator formula written out here (refFraction; it used to be the
+// library's own maptile.Fraction, which let a change to that function hide itself); segments in tile
 // space are intersected with the grid lines, giving for every crossed tile a
 // witness point that must be covered when it is farther than 1e-6 tile from all
 // tile edges.
@@ -29,10 +29,17 @@ func tileToLonLat(x, y float64, z uint) orb.Point {
 	return orb.Point{lon, lat}
 }
 
+// refFraction: fractional tile coordinates of a lon/lat point with |lat| <= 85.0511 (the property's domain ends at 85).
+func refFraction(ll orb.Point, z maptile.Zoom) orb.Point {
+	n := float64(uint64(1) << uint(z))
+	siny := math.Sin(ll[1] * math.Pi / 180.0)
+	return orb.Point{(ll[0]/360.0 + 0.5) * n, (0.5 + 0.5*math.Log((1.0+siny)/(1.0-siny))/(-2*math.Pi)) * n}
+}
+
 func fractions(ls []orb.Point, z maptile.Zoom) []P {
 	out := make([]P, len(ls))
 	for i, p := range ls {
-		f := maptile.Fraction(p, z)
+		f := refFraction(p, z)
 		out[i] = P{f[0], f[1]}
 	}
 	return out
@@ -287,7 +294,7 @@ func init() {
 			"non-trivial = the geometry's cover has at least 2 tiles, or a merge that changes the set; distinct = hash of (zoom, coordinates)",
 		MinNontrivial: h.Fixed(1500, 150000),
 		Assumptions: []string{
-			"vertices are projected with the library's own maptile.Fraction; witness and sample points closer than 1e-6 tile to a tile edge or to the boundary are not judged",
+			"vertices are projected with the mercator formula written out in the monitor; witness and sample points closer than 1e-6 tile to a tile edge or to the boundary are not judged",
 			"polygons are simple in tile space (exact filter) with holes strictly inside; the polygon clause is a lower bound plus the tile-space bounding box, as the property states",
 		},
 		Subs: []h.Sub{
@@ -348,7 +355,7 @@ func init() {
 					pc := tilecover.MultiPoint(mp, zoom)
 					want := maptile.Set{}
 					for _, p := range mp {
-						f := maptile.Fraction(p, zoom)
+						f := refFraction(p, zoom)
 						want[maptile.Tile{X: uint32(f[0]), Y: uint32(f[1]), Z: zoom}] = true
 						if one := tilecover.Point(p, zoom); len(one) != 1 || !one[maptile.Tile{X: uint32(f[0]), Y: uint32(f[1]), Z: zoom}] {
 							c.Fail("", "the cover of a point is not its tile", map[string]interface{}{"point": sv(p), "zoom": z, "cover": setString(one)})
@@ -474,7 +481,7 @@ func init() {
 					}
 					b := pg[0].Bound()
 					bc := tilecover.Bound(b, zoom)
-					lo, hi := maptile.Fraction(b.Min, zoom), maptile.Fraction(b.Max, zoom)
+					lo, hi := refFraction(b.Min, zoom), refFraction(b.Max, zoom)
 					wantB := maptile.Set{}
 					for x := math.Floor(lo[0]); x <= math.Floor(hi[0]); x++ {
 						for y := math.Floor(hi[1]); y <= math.Floor(lo[1]); y++ {
